@@ -13,7 +13,7 @@ pub const DEF: PropDef = PropDef {
     id: "C12",
     run,
     oracle,
-    rule: "cases = histories of 1..3 calls, each a buffer of 1..6 chained packets of versions {5,7,9,10} (conformant plans; V9 count = flowsets) with, optionally, an atom of an unknown version number (0, 1, 6, 8, 11, 255, 256, 0x0900, random) + junk, a truncated packet or a hostile mutation; a list of extra allowed numbers that sometimes contains the unknown version used. For every case the oracle enumerates all 16 subsets S of {5,7,9,10}, each with and without the extras (32 configurations): the S-parser's result of every call must equal the leading elements of a twin parser that allows all 65,536 versions and starts from a copy of the S-parser's caches, up to but excluding the first element whose start offset holds a version not in S (Debug equality); the S-parser's caches after the call must equal those of a third all-allowing parser fed only the bytes before that offset; an allowed version outside {5,7,9,10} must yield a final UnknownVersion error. non-trivial = some call has >= 2 packets of >= 2 distinct versions, or a V9/IPFIX template packet is filtered; distinct by digest.",
+    rule: "cases = histories of 1..3 calls, each a buffer of 1..6 chained packets of versions {5,7,9,10} (conformant plans; V9 count = flowsets) with, optionally, an atom of an unknown version number (0, 1, 6, 8, 11, 255, 256, 0x0900, random) + junk, a truncated packet or a hostile mutation; a list of extra allowed numbers that sometimes contains the unknown version used. For every case the oracle enumerates all 16 subsets S of {5,7,9,10}, each with and without the extras (32 configurations, the same S for every call), plus - for histories of >= 2 calls - 8 schedules that reassign the public allowed_versions field between calls (shrinking and growing it): the S-parser's result of every call must equal the leading elements of a twin parser that allows all 65,536 versions and is in the same state (built by replaying the part of every earlier buffer the S-parser consumed), up to but excluding the first element whose start offset holds a version not in S (Debug equality); the S-parser's caches after the call must equal those of a third all-allowing parser fed only the bytes before that offset; an allowed version outside {5,7,9,10} must yield a final UnknownVersion error. non-trivial = some call has >= 2 packets of >= 2 distinct versions, or a V9/IPFIX template packet is filtered; distinct by digest.",
     assumptions: &["element start offsets come from the C02 decomposition of the all-allowing twin's result"],
 };
 
@@ -37,17 +37,39 @@ pub fn oracle(case: &Case) -> Outcome {
     let mut o = Outcome::pass();
     let extras: Vec<u16> = case.allowed.first().cloned().unwrap_or_default().into_iter().filter(|v| !CORE.contains(v)).collect();
     let all = obs::all_versions();
-    for s in subsets(&extras) {
-        let sset: HashSet<u16> = s.iter().cloned().collect();
-        let mut ps = obs::new_parser(&s);
+    // one schedule per allowed set (the same set for every call), plus - for histories of
+    // several calls - schedules that reassign the public field between calls (shrinking and
+    // growing it): the documented way of changing the filter on a live parser
+    let subs = subsets(&extras);
+    let ncalls = case.calls.len();
+    let mut schedules: Vec<Vec<Vec<u16>>> = subs.iter().map(|s| vec![s.clone(); ncalls]).collect();
+    if ncalls >= 2 {
+        for j in (1..subs.len()).step_by(4) {
+            schedules.push((0..ncalls).map(|i| subs[(j + i * (1 + j / 4)) % subs.len()].clone()).collect());
+            o.label("allowed-set-reassigned-between-calls");
+        }
+    }
+    for sched in schedules {
+        let mut ps = obs::new_parser(&sched[0]);
+        let mut consumed: Vec<Vec<u8>> = vec![];
         for (ci, c) in case.calls.iter().enumerate() {
+            let s = sched[ci].clone();
+            let sset: HashSet<u16> = s.iter().cloned().collect();
+            ps.allowed_versions = sset.clone();
             let buf = c.buf();
-            let mut twin = obs::new_parser(&[]);
-            twin.allowed_versions = all.clone();
-            obs::clone_caches(&ps, &mut twin);
-            let mut third = obs::new_parser(&[]);
-            third.allowed_versions = all.clone();
-            obs::clone_caches(&ps, &mut third);
+            // all-allowing parsers in the state `ps` is in: built by replaying what `ps` has
+            // consumed so far (the part of every earlier buffer in front of its first
+            // filtered packet; that this leaves the same caches was checked call by call)
+            let replayed = || {
+                let mut t = obs::new_parser(&[]);
+                t.allowed_versions = all.clone();
+                for b in &consumed {
+                    t.parse_bytes(b);
+                }
+                t
+            };
+            let mut twin = replayed();
+            let mut third = replayed();
 
             let rs = ps.parse_bytes(&buf);
             let rt = twin.parse_bytes(&buf);
@@ -83,6 +105,7 @@ pub fn oracle(case: &Case) -> Outcome {
                 ));
             }
             let _ = third.parse_bytes(&buf[..cut_off]);
+            consumed.push(buf[..cut_off].to_vec());
             if obs::cache_fingerprint(&ps) != obs::cache_fingerprint(&third) {
                 return Outcome::violation(format!(
                     "allowed={:?} call {}: caches differ from a parser fed only the {} bytes before the first filtered packet",
